@@ -49,6 +49,10 @@ def cases_for(ctx):
     # explicit ids: more recordings than any default limit, through the studio; a timed-out worker that cannot be killed and answers late
     cases.append({'behaviours': ['equal', 'different'] * 12 + ['equal'], 'dedicated': False, 'recycle': 5, 'keep': False, 'via_studio': True})
     cases.append({'behaviours': ['equal', 'late', 'equal', 'different', 'equal'], 'dedicated': True, 'recycle': 5, 'keep': True, 'kill_fails': True})
+    # a host that lets the kernel reap its children (SIGCHLD ignored): workers are recycled several times
+    cases.append({'behaviours': ['equal', 'different', 'equal', 'equal', 'different', 'equal', 'player_raises', 'equal'], 'dedicated': True, 'recycle': 2, 'keep': True,
+                  'host': 'sigchld_ignored'})
+    cases.append({'behaviours': ['equal'] * 7 + ['different'], 'dedicated': True, 'recycle': 5, 'keep': False, 'host': 'sigchld_ignored'})
     if ctx.quick:
         return cases
     rng = ctx.rng
@@ -131,7 +135,68 @@ def judge(ctx, case, res, w):
     return verdicts
 
 
+def start_method_part(ctx):
+    """The same comparison under the spawn and forkserver start methods of multiprocessing (nothing but module level callables is handed
+    to the Equalizer, the comparison data extractor is given or left out): in process and dedicated give the scripted verdicts."""
+    import json
+    import os
+    import subprocess
+    import sys
+    from concurrent.futures import ThreadPoolExecutor
+    from vlib import eqspawn_expected as E
+    script = os.path.join(env.VERIF, 'vlib', 'eqspawn.py')
+    cases = []
+    seqs = [['equal', 'different', 'player_raises', 'extractor_raises', 'comparator_raises', 'bare_status', 'equal'], ['different', 'equal', 'equal']]
+    for sm in ('spawn', 'forkserver'):
+        for wd in (False, True):
+            for si, seq in enumerate(seqs if not ctx.quick else seqs[:1]):
+                cases.append({'behaviours': seq, 'start_method': sm, 'with_data_extractor': wd, 'recycle': 2 + si, 'keep': True, 'ids_as_list': wd})
+
+    def one(case):
+        try:
+            p = subprocess.run([sys.executable, script, json.dumps(case)], stdout=subprocess.PIPE, stderr=subprocess.PIPE, text=True,
+                               env=dict(os.environ, VERIF_REPO=env.REPO), timeout=600, start_new_session=True)
+        except subprocess.TimeoutExpired:
+            return None, 'watchdog'
+        lines = [l for l in p.stdout.splitlines() if l.startswith('{')]
+        if p.returncode != 0 or not lines:
+            return {'stderr': p.stderr[-1500:]}, 'crashed'
+        return json.loads(lines[-1]), 'ok'
+    with ThreadPoolExecutor(max_workers=4) as ex:
+        outs = list(ex.map(one, cases))
+    for case, (res, status) in zip(cases, outs):
+        w = {'start_method_case': case}
+        ctx.case(case)
+        ctx.count('cases_start_method_' + case['start_method'])
+        if status != 'ok':
+            ctx.inconclusive('start method case %s: %s' % (status, str(res)[-300:]))
+            continue
+        if res['error']:
+            ctx.violation('comparison under the %s start method ended with an error: %s' % (case['start_method'], res['error'][:120]), w)
+            continue
+        exp = [E.EXPECTED[b] for b in case['behaviours']]
+        for mode in ('in_process', 'dedicated'):
+            got = res[mode]
+            ctx.count('verdicts_checked', len(got))
+            if [r['recording_id'] for r in got] != res['ids']:
+                ctx.violation('%s run under the %s start method: not exactly one comparison per id, in order' % (mode, case['start_method']), w)
+                continue
+            if [r['status'] for r in got] != exp:
+                ctx.violation('%s run under the %s start method gave verdicts %r, scripted %r' % (mode, case['start_method'], [r['status'] for r in got], exp),
+                              dict(w, messages=[r['message'][:80] for r in got if r['status'] == 'EqualizerFailure'][:3]))
+                continue
+            for i, r in enumerate(got):
+                tok = 'T%d' % i
+                for side in ('expected', 'actual'):
+                    if r[side] is not None and tok not in str(r[side]):
+                        ctx.violation('comparison carries the kept %s result of another recording' % side, dict(w, position=i, value=r[side]))
+                if case['with_data_extractor'] and r['status'] in ('Equal', 'Different') and case['behaviours'][i] != 'bare_status' and res['ids'][i] not in r['message']:
+                    ctx.violation('comparator was not handed the comparison data of its own recording', dict(w, position=i, message=r['message']))
+
+
 def run(ctx):
+    if ctx.shard == 0:
+        start_method_part(ctx)
     cases = []
     for i, c in enumerate(cases_for(ctx)):
         # the two members of an in-process / dedicated pair must land in the same shard
@@ -173,6 +238,8 @@ def run(ctx):
 
 
 def replay(ctx, w):
+    if 'start_method_case' in w:
+        return start_method_part(ctx)
     res, status = H.run_one(w['case'])
     if status != 'ok':
         print('case', status, res)
